@@ -318,6 +318,46 @@ impl<'a> Gen<'a> {
         self.a.nop()
     }
 
+    /// a call to a stub that consists of one jump through memory (a PLT entry): the instruction at the called
+    /// address is itself a transfer, through a slot the program filled in before
+    fn stub_call(&mut self) -> R {
+        if !self.has_stack || self.data_len < 16 {
+            return self.simple();
+        }
+        let r = self.reg();
+        let mut b = self.reg();
+        if b == r {
+            b = self.pool[(self.pool.iter().position(|x| *x == r).unwrap() + 1) % self.pool.len()];
+        }
+        if b == r {
+            return self.simple();
+        }
+        let disp = (self.data_disp(8) & !7) as i32;
+        let mut stub = self.a.create_label();
+        let mut real = self.a.create_label();
+        let mut after = self.a.create_label();
+        self.a.lea(POOL[r], ptr(real))?;
+        self.a.mov(POOL[b], DATA_BASE)?;
+        self.a.mov(qword_ptr(POOL[b] + disp), POOL[r])?;
+        self.a.call(stub)?;
+        self.a.jmp(after)?;
+        self.a.set_label(&mut stub)?;
+        if self.rng.chance(1, 2) {
+            self.a.jmp(qword_ptr(POOL[b] + disp))?;
+        } else {
+            self.a.jmp(qword_ptr(DATA_BASE + disp as u64))?;
+        }
+        self.a.set_label(&mut real)?;
+        self.a.nop()?;
+        if self.rng.chance(1, 3) {
+            // the stub is entered a second time from inside the function it leads to? no: keep it a leaf
+            self.a.nop()?;
+        }
+        self.a.ret()?;
+        self.a.set_label(&mut after)?;
+        self.a.nop()
+    }
+
     fn call_item(&mut self, from_func: Option<usize>) -> R {
         if !self.has_stack || self.n_funcs == 0 {
             return self.simple();
@@ -447,10 +487,10 @@ impl<'a> Gen<'a> {
         if self.items > 400 {
             return self.a.nop();
         }
-        let weights: [u32; 11] = match self.flavour {
-            "c18" => [10, 4, 12, 10, 14, 12, 8, 4, 4, 6, 6],
-            "c12" => [30, 8, 8, 6, 6, 4, 2, 6, 10, 1, 1],
-            _ => [30, 10, 8, 6, 6, 5, 2, 6, 4, 1, 1],
+        let weights: [u32; 12] = match self.flavour {
+            "c18" => [10, 4, 12, 10, 14, 12, 8, 4, 4, 6, 6, 6],
+            "c12" => [30, 8, 8, 6, 6, 4, 2, 6, 10, 1, 1, 1],
+            _ => [30, 10, 8, 6, 6, 5, 2, 6, 4, 1, 1, 1],
         };
         let mut w = weights;
         if depth >= 3 {
@@ -469,6 +509,7 @@ impl<'a> Gen<'a> {
             7 => self.push_pop(),
             9 => self.alternating_back_edges(),
             10 => self.redirected_indirect_jump(),
+            11 => self.stub_call(),
             _ => self.trap(),
         }
     }
